@@ -31,7 +31,8 @@ CLAIMED = {
     text='Bounded proof for ONE clause of C02 - the iteration limit bounds the work and failures are clean: for 7 calibrations with an unknown parameter (unknown reflect through the double- and single-reflect entry points, unknown line; T8, U8, TE10, UE14, E12; 1 frequency) '
          'and iteration limits 1..2 (3 in thorough), with every measured value a free complex symbol and every result of _vnacommon_qr / _vnacommon_qrsolve2 / _vnacommon_mldivide an arbitrary value, on every feasible combination of outcomes of the improvement, '
          'Marquardt and convergence tests: vnacal_new_solve returns; it linearises at most limit + 1 times; a failure is -1 with errno EDOM and exactly one message (failed to converge / singular), success installs a calibration; no access outside owned memory; '
-         'nothing stays allocated after vnacal_new_free + vnacal_free.  Convergence to the true values and the effect of the tolerances are NOT claimed (a floating-point iteration is outside what the installed solvers decide).',
+         'nothing stays allocated after vnacal_new_free + vnacal_free; and each tolerance (a free positive symbol) occurs in the condition of some two-sided convergence decision - which holds for the parameter tolerance and FAILS for the error-term tolerance '
+         '(recorded known finding: vnacal_new_set_et_tolerance has no effect; the check prints KNOWN-FINDING for it and exits 0).  Convergence to the true values and the effect of the tolerances are NOT claimed (a floating-point iteration is outside what the installed solvers decide).',
     note='Trusted: clang front end, vf/irx.py, z3, the kernel hooks (arbitrary finite values, full rank, non-zero determinant - an over-approximation of the real kernels on well-posed data).  Outside: closed-form TRL, correlated parameters, m-error weighting, limits > 3.',
     design='DESIGN.md section 3 / C02', cmd='python3-vt ./check C02', engine='irx+z3'),
  'C06': dict(
